@@ -58,6 +58,7 @@ pub struct Ctx {
     pub budget_s: f64,
     pub violations: Mutex<Vec<Violation>>,
     pub viol_sigs: Mutex<BTreeSet<String>>,
+    pub known_seen: Mutex<BTreeSet<String>>,
     pub known: Vec<KnownFinding>,
     pub counters: Mutex<BTreeMap<String, u64>>,
     pub samples: Mutex<Vec<Value>>,
@@ -80,6 +81,8 @@ impl Ctx {
             .ok()
             .and_then(|s| s.parse::<f64>().ok())
             .unwrap_or(tier.pick(45.0, 1500.0));
+        // replay artefacts describe the current run only
+        let _ = std::fs::remove_dir_all(format!("{}/replays/{}", VERIF_DIR, prop));
         Ctx {
             prop: prop.to_string(),
             tier,
@@ -88,6 +91,7 @@ impl Ctx {
             budget_s,
             violations: Mutex::new(vec![]),
             viol_sigs: Mutex::new(BTreeSet::new()),
+            known_seen: Mutex::new(BTreeSet::new()),
             known: load_known(prop),
             counters: Mutex::new(BTreeMap::new()),
             samples: Mutex::new(vec![]),
@@ -169,6 +173,12 @@ impl Ctx {
     }
 
     pub fn violation(&self, v: Violation) {
+        if let Some(k) = self.match_known(&v) {
+            // a recorded finding: reported once as KNOWN-FINDING, never as a violation
+            self.count("known_finding_occurrences", 1);
+            self.known_seen.lock().unwrap().insert(k.what.clone());
+            return;
+        }
         let mut sigs = self.viol_sigs.lock().unwrap();
         if sigs.len() >= 400 || !sigs.insert(format!("{}|{}", v.check, v.signature)) {
             self.count("violations_duplicate_or_over_cap", 1);
@@ -201,8 +211,11 @@ impl Ctx {
         let wall = self.elapsed();
         let viols = self.violations.lock().unwrap().clone();
         let mut n_new = 0;
-        let mut n_known = 0;
+        let mut n_known = self.get_count("known_finding_occurrences");
         let mut known_lines = BTreeSet::new();
+        for w in self.known_seen.lock().unwrap().iter() {
+            known_lines.insert(format!("KNOWN-FINDING: property={} {}", self.prop, w));
+        }
         let mut out_lines = vec![];
         for v in viols.iter() {
             if let Some(k) = self.match_known(v) {
